@@ -52,7 +52,9 @@ def check(model, tier):
     sqlplace.r_inner_calculation_name(ctx, "R02.11")
     sqlemit.r_select_list_order(ctx, "R02.12")
     sqlemit.r_identifier_agreement(ctx, "R02.14")
+    sqlplace.r08_3_order_by_scope(ctx, rule="R02.16")  # an accepted tree must compile: refusing it is no SELECT at all
     sqlemit.r_anonymous_binds(ctx, "R02.15")
+    sqlemit.r_flattened_predicate(ctx, "R02.17")
     from ..rules import rangesql as _rangesql
 
     _rangesql.r12_7_range_membership(ctx, rule="R02.13")
